@@ -31,11 +31,12 @@ Record cstate := mkC {
   c_phase : cphase;
   c_outstanding : N;    (* entries of the awaiting map placed by users of the Client *)
   c_sent_close : bool;  (* sentClose *)
-  c_closed : bool       (* isClosed (done is closed) *)
+  c_closed : bool;      (* isClosed (done is closed) *)
+  c_next_id : N         (* nextMsgID of the write loop: the ID the next message without one gets *)
 }.
 
 (* NewClient(WithVersion(v)[, WithTimeout(d)]) *)
-Definition c_new (v : N) (timeout : bool) : cstate := mkC v timeout PNew 0 false false.
+Definition c_new (v : N) (timeout : bool) : cstate := mkC v timeout PNew 0 false false 0.
 
 (* Client.readHeader on a client in state [c]; [deadline_ok] = conn.SetReadDeadline succeeds;
    [stream] = what the connection delivers before EOF *)
@@ -78,18 +79,27 @@ Inductive cevent :=
                               not the reply to an outstanding request *).
 
 Definition set_phase (c : cstate) (p : cphase) : cstate :=
-  mkC (c_ver c) (c_timeout c) p (c_outstanding c) (c_sent_close c) (c_closed c).
+  mkC (c_ver c) (c_timeout c) p (c_outstanding c) (c_sent_close c) (c_closed c) (c_next_id c).
 
 (* the read side returns; Connect's deferred Close has run *)
 Definition die (c : cstate) : cstate :=
-  mkC (c_ver c) (c_timeout c) PDead (c_outstanding c) (c_sent_close c) true.
+  mkC (c_ver c) (c_timeout c) PDead (c_outstanding c) (c_sent_close c) true (c_next_id c).
+
+(* the write loop: "if msg.id == 0 { msg.id = nextMsgID; nextMsgID++ }" (a uint32) *)
+Definition next_id (c : cstate) : N := (c_next_id c + 1) mod 2 ^ 32.
+Definition sent_one (c : cstate) : cstate :=
+  mkC (c_ver c) (c_timeout c) (c_phase c) (c_outstanding c) (c_sent_close c) (c_closed c) (next_id c).
+(* can a caller's message reach the write loop?  (ready, done not closed, loop not stopped) *)
+Definition sendable (c : cstate) : bool :=
+  match c_phase c with PReady => negb (c_closed c) && negb (c_sent_close c) | _ => false end.
 
 (* negotiate(): ver := min(c.version, MaxSupportedVersion) (stored when lowered);
    done if the reader already uses it, else SetProtocolVersion *)
 Definition after_gsv (c : cstate) (cur mx : N) : cstate :=
   let v := if mx <? c_ver c then mx else c_ver c in
   mkC v (c_timeout c) (if cur =? v then PReady else PNegSpv)
-      (c_outstanding c) (c_sent_close c) (c_closed c).
+      (c_outstanding c) (c_sent_close c) (c_closed c)
+      (if cur =? v then c_next_id c else next_id c).   (* SetProtocolVersion goes out *)
 
 Definition client_step (c : cstate) (e : cevent) : cstate :=
   match e with
@@ -98,7 +108,8 @@ Definition client_step (c : cstate) (e : cevent) : cstate :=
       match c_phase c with
       | PAwaitFirst =>
           if c_closed c then die c    (* the loops (and negotiation) see done at once *)
-          else set_phase c (if 1 <? c_ver c then PNegGsv else PReady)
+          else if 1 <? c_ver c then sent_one (set_phase c PNegGsv)   (* GetSupportedVersion goes out *)
+          else set_phase c PReady
       | _ => c
       end
   (* a reply that arrives after Close is no longer awaited: read as one more message, then the
@@ -109,18 +120,16 @@ Definition client_step (c : cstate) (e : cevent) : cstate :=
       match c_phase c with PNegGsv => if c_closed c then die c else after_gsv c 1 1 | _ => c end
   | EvSpv =>
       match c_phase c with PNegSpv => if c_closed c then die c else set_phase c PReady | _ => c end
-  | EvXchg => c
+  | EvXchg => if sendable c then sent_one c else c
   | EvReq =>
-      match c_phase c with
-      | PReady => mkC (c_ver c) (c_timeout c) PReady (c_outstanding c + 1) (c_sent_close c) (c_closed c)
-      | _ => c
-      end
+      if sendable c
+      then mkC (c_ver c) (c_timeout c) PReady (c_outstanding c + 1) (c_sent_close c) (c_closed c) (next_id c)
+      else c
   | EvSentClose =>
-      match c_phase c with
-      | PReady => mkC (c_ver c) (c_timeout c) PReady (c_outstanding c) true (c_closed c)
-      | _ => c
-      end
-  | EvClose => mkC (c_ver c) (c_timeout c) (c_phase c) (c_outstanding c) (c_sent_close c) true
+      if sendable c
+      then mkC (c_ver c) (c_timeout c) PReady (c_outstanding c) true (c_closed c) (next_id c)
+      else c
+  | EvClose => mkC (c_ver c) (c_timeout c) (c_phase c) (c_outstanding c) (c_sent_close c) true (c_next_id c)
   | EvFail | EvEof => if reading c then die c else c
   | EvRecv s =>
       if reading c then
@@ -160,4 +169,65 @@ Fixpoint client_reads (c : cstate) (evs : list cevent) : list (list N) :=
                   | _ => []
                   end in
       here ++ client_reads (client_step c e) rest
+  end.
+
+(* ---- every way a caller can put a message type on the connection.
+
+   newMessage(data, payloadLen, typ) - shared by NewHdrOnlyMsg(typ) (payloadLen 0) and
+   NewByteMessage(typ, payload) (payloadLen = len(payload)), hence by Client.SendMessage(ctx, typ,
+   data) and Client.SendFor(ctx, out, in) (typ = out.Type(), data = out.MarshalBinary()) - panics
+   unless validateHeader accepts (payloadLen, typ); the Message carries version VersionMin, id 0. *)
+Definition version_min : N := 1.
+Definition new_message (len typ : N) : option header :=
+  if validate_header len typ then Some (mkHdr version_min typ len 0) else None.
+
+(* handleOutgoing: the ID is assigned if the message has none; GetSupportedVersion and
+   SetProtocolVersion carry 1.1, everything else the version in use; then writeHeader *)
+Definition stamp (c : cstate) (m : header) : header :=
+  mkHdr (if (h_typ m =? 46) || (h_typ m =? 47) then 2 else c_ver c) (h_typ m) (h_len m)
+        (if h_id m =? 0 then c_next_id c else h_id m).
+
+(* SendNoWait(newMessage ..) / SendMessage / SendFor on a client in state [c]: refused (None: the
+   constructor panics, or nothing takes the message), or the header bytes that go out *)
+Definition client_send (c : cstate) (typ len : N) : option (list N) :=
+  if sendable c then
+    match new_message len typ with
+    | None => None
+    | Some m => Some (client_write_header c (stamp c m))
+    end
+  else None.
+
+(* a batch of sends, one after the other: each accepted one uses up an ID *)
+Fixpoint client_send_all (c : cstate) (reqs : list (N * N)) : list (option (list N)) :=
+  match reqs with
+  | [] => []
+  | (typ, len) :: rest =>
+      let r := client_send c typ len in
+      r :: client_send_all (match r with Some _ => sent_one c | None => c end) rest
+  end.
+
+(* ---- a connection that fails while the header is written.  conn.Write(p) either takes all of p,
+   or takes the first k bytes and returns an error (a deadline that expired, or anything else);
+   what happens on later Write calls is irrelevant: writeHeader calls Write once and reports its
+   error. *)
+Inductive wfault := WNoFault | WFault (k : nat) (is_timeout : bool).
+
+Definition conn_write (f : wfault) (p : list N) : list N * bool :=
+  match f with
+  | WNoFault => (p, true)
+  | WFault k _ => (firstn k p, false)
+  end.
+
+(* writeHeader over such a connection: (what the peer has received, success reported) *)
+Definition client_write_header_io (c : cstate) (h : header) (f : wfault) : list N * bool :=
+  conn_write f (client_write_header c h).
+
+(* a message of [len] zero bytes sent through the write loop over such a connection (the fault hits
+   the first Write, which is the header's): the payload follows only a header reported as written *)
+Definition client_send_io (c : cstate) (typ len : N) (f : wfault) : option (list N * bool) :=
+  match client_send c typ len with
+  | None => None
+  | Some hb =>
+      let (got, ok) := conn_write f hb in
+      Some (if ok then got ++ repeat 0 (N.to_nat len) else got, ok)
   end.
